@@ -26,8 +26,11 @@ CLAIMED.update({
              'switch combination and -S list (any order/duplicates); look-ups without options consider every PEL; default set, '
              '--every-pel, monotonicity without --only, group = high hex digit. Pins: the three flag masks, two severities, seven '
              'group digits. Correspondence: real considerPEL on all 256 severities per (flags, config) row; thorough tier is '
-             'exhaustive over 64 switch sets x 128 group subsets x 24 flag words; argparse glue through real `peltool -n` runs.',
-        note=BASE + 'argparse/Config glue is only exercised, not modelled.',
+             'exhaustive over 64 switch sets x 128 group subsets x 24 flag words; argparse glue through real `peltool -n` runs. '
+             'main(): the block of `if args.x: config.x = ...` statements is modelled (mkConfig) and proved to copy every switch, translate -S names in '
+             'order with duplicates, and set a look-up id exactly in the five look-up branches, so the default-set and look-up theorems apply to '
+             'what main() passes on; the Config built by the real main() is compared member by member on generated command lines.',
+        note=BASE + 'The argument parser itself is only exercised (real command lines), not modelled; the model starts from the parsed namespace.',
         technique='Lean 4 proof (boolean case analysis after abstracting the derived predicates) + exhaustive differential correspondence',
         ref='§4 C07'),
     'C14': dict(
@@ -160,14 +163,19 @@ CLAIMED.update({
         text='Theorems: --delete removes at most one file, a top-level file whose name contains the processed id, and keeps every other file; not found / '
              'bad id => nothing removed; --delete-all empties the top level; --json creates only <file>.<eid>.json for decodable selected inputs and removes '
              'inputs only with --clean and only those. Read-only modes and subdirectories are outside what the mutating functions can touch by construction. '
-             'Correspondence/observation: recursive tree snapshots before/after real invocations of every mode and mixes of modes.',
+             'main(): the priority chain of modes is modelled (dispatch) and proved equal to a declarative first-truthy-wins chain; a delete function is reached '
+             'only with a non-empty -d / with -D, always on the -p directory after isdir, never next to a higher-priority mode option; delete_after_parsing / '
+             'main()\'s own os.remove only with --clean. '
+             'Correspondence/observation: recursive tree snapshots before/after real invocations of every mode and mixes of modes; the real main() with all '
+             'callees recorded on all pairs and (thorough) all 8192 subsets of the thirteen mode options, compared with the model.',
         note=BASE + 'Frame conditions of the read-only modes hold by the types of the model (they return no directory); the real code is held to them by snapshots.',
         technique='Lean 4 proof (frame conditions on an abstract directory) + tree-snapshot observation',
         ref='§4 C11'),
     'C12': dict(
         text='Theorems (every number of writes, every fault plan, every prefix of the trace = every crash point): a removal of the input occurs only after '
              'open, all writes and close (resp. print and flush) succeeded; any earlier fault, a decode failure or a filtered PEL leaves the input in place; '
-             'removal iff nothing faults. Correspondence: fault-injecting proxies for open / write / close / stdout / os.remove around the real main(), '
+             'removal iff nothing faults; main()\'s -f branch calls os.remove(the -f file) iff --clean and parseAndPrintPELFile returned True, which is '
+             'exactly when the event trace contains the removal. Correspondence: fault-injecting proxies for open / write / close / stdout / os.remove around the real main(), '
              'ENOSPC / EIO / EPIPE at every kind of step, event trace compared with the model, final state checked; /dev/full on the real OS.',
         note=BASE + 'PARTIAL by nature: durability beyond close() (no fsync in the code) and kernel crashes are outside any executable model.',
         technique='Lean 4 proof (invariant over trace prefixes) + fault-injection correspondence',
